@@ -260,6 +260,17 @@ pub fn integ_decl() -> impl Strategy<Value = IntegDecl> {
         1 => Just(IntegDecl::OtherAlgoCorrect),
         1 => Just(IntegDecl::MultiWithCorrect),
         1 => Just(IntegDecl::MultiAllWrong),
+        1 => Just(IntegDecl::MultiTwoAlgos),
+    ]
+}
+
+/// Declarations that all match the data (for engines that do not study rejections).
+pub fn integ_decl_matching() -> impl Strategy<Value = IntegDecl> {
+    prop_oneof![
+        6 => Just(IntegDecl::None),
+        3 => Just(IntegDecl::Correct),
+        1 => Just(IntegDecl::MultiWithCorrect),
+        1 => Just(IntegDecl::MultiTwoAlgos),
     ]
 }
 
@@ -297,16 +308,21 @@ pub struct WriteMix {
     pub meta: bool,
     /// allow by-address writes
     pub by_hash: bool,
+    /// allow multi-hash declared integrities that match (C11), pauses before commit
+    pub rich_matching: bool,
+    /// allow interference by another process between the last chunk and the commit (C20)
+    pub interfere: bool,
 }
 
 /// A write spec with raw 16-bit selectors for key and blob, resolved by `resolve_*`.
 pub fn write_spec(mix: WriteMix, nkeys: usize, nblobs: usize) -> impl Strategy<Value = WriteSpec> {
     (
         (any::<u16>(), any::<u16>(), any::<bool>(), algo(), wentry()),
-        (chunks(), declare(mix.bad_decls), if mix.bad_decls { integ_decl().boxed() } else { prop_oneof![Just(IntegDecl::None), Just(IntegDecl::Correct)].boxed() }),
+        (chunks(), declare(mix.bad_decls), if mix.bad_decls { integ_decl().boxed() } else if mix.rich_matching { integ_decl_matching().boxed() } else { prop_oneof![Just(IntegDecl::None), Just(IntegDecl::Correct)].boxed() }),
         (proptest::option::weighted(0.3, time_text()), proptest::option::weighted(0.3, json_value()), proptest::option::weighted(0.25, raw_meta()), any::<bool>()),
+        (prop_oneof![3 => Just(0u8), 1 => 3u8..6], prop_oneof![12 => Just(Interfere::None), 1 => Just(Interfere::Clear), 1 => Just(Interfere::RemoveTmp), 1 => Just(Interfere::RemoveContentArea)]),
     )
-        .prop_map(move |((ks, bs, hash, algo, entry), (chunks, declare, integ), (time, metadata, raw, flush))| {
+        .prop_map(move |((ks, bs, hash, algo, entry), (chunks, declare, integ), (time, metadata, raw, flush), (pause, interfere))| {
             let by_hash = mix.by_hash && hash && (ks & 3) == 0;
             let mut s = WriteSpec {
                 key: if by_hash { None } else { Some(pick(ks, nkeys)) },
@@ -320,6 +336,8 @@ pub fn write_spec(mix: WriteMix, nkeys: usize, nblobs: usize) -> impl Strategy<V
                 metadata: if mix.meta { metadata } else { None },
                 raw_metadata: if mix.meta { raw } else { None },
                 flush,
+                pause_ms: if mix.rich_matching { pause } else { 0 },
+                interfere: if mix.interfere { interfere } else { Interfere::None },
             };
             normalise_write(&mut s);
             s
@@ -345,6 +363,8 @@ pub fn normalise_write(s: &mut WriteSpec) {
     if !s.streamed() {
         s.chunks.clear();
         s.flush = false;
+        s.pause_ms = 0;
+        s.interfere = Interfere::None;
     }
 }
 
